@@ -180,6 +180,19 @@ def ref_branch_2d_write_else(k):
     return [[rows[0][col] + (j == col) * (w - rows[0][col]) for col in range(2)], rows[1]]
 
 
+def write_fxp_into_bools(k):
+    """an array of secret booleans; a fixed-point value written at a secret index (the other elements are converted)"""
+    A = k.ar.Array([k.B("a0"), k.B("a1"), k.B("a2")])
+    A[k.S("i")] = k.F("y")
+    return list(A.arr)
+
+
+def ref_write_fxp_into_bools(k):
+    i, y = k.v("i"), k.v("y")
+    one = 1 << k.r
+    return [(i == j) * y + (1 - (i == j)) * (k.v("a%d" % j) * one) for j in range(3)]
+
+
 def build(n=4, tier="quick"):
     ents = []
     maxlen = 3 if tier == "quick" else 4
@@ -220,6 +233,9 @@ def build(n=4, tier="quick"):
         lambda k: inrange(k.v("i"), 2), {"seq", "shared_index"})
     add("same_index_rect", same_index_rect, ("a0", "a1", "b0", "b1", "c0", "c1", "i"), ref_same_index_rect,
         lambda k: inrange(k.v("i"), 2), {"read", "2d", "shared_index"})
+    ents.append(Entry("write_fxp_into_bools", write_fxp_into_bools, ("a0", "a1", "a2", "i", "y"), ref=ref_write_fxp_into_bools,
+                      assume=(lambda k: [((k.v("a%d" % j) == 0) | (k.v("a%d" % j) == 1)) for j in range(3)] + [inrange(k.v("i"), 3)]),
+                      tags={"arr", "write", "mixed"}))
     bit_c = lambda k: [(k.v("c") == 0) | (k.v("c") == 1), inrange(k.v("j"), 2)]
     ents.append(Entry("branch_2d_write", branch_2d_write, ("a0", "a1", "b0", "b1", "c", "j", "y"), ref=ref_branch_2d_write,
                       assume=bit_c, tags={"arr", "write", "2d", "branch"}))
